@@ -22,6 +22,7 @@ import (
 	"sort"
 	"strconv"
 	"strings"
+	"unicode"
 	"unicode/utf8"
 
 	"github.com/arloliu/go-secs/v2/hsms"
@@ -143,12 +144,18 @@ func plainText(s string) bool {
 			return false
 		}
 	}
+	// C1 controls (U+0080..U+009F) are control characters too
+	for _, r := range s {
+		if r != utf8.RuneError && unicode.IsControl(r) {
+			return false
+		}
+	}
 	return true
 }
 
-// inDomain: lists, ASCII with any bytes, binary, boolean, integer, float; JIS-8 / localized text
-// free of quote, backslash, angle bracket and control characters (and, for localized text, left
-// unchanged by strconv.Quote); no EmptyItem below the top.
+// inDomain is the domain of the property statement, read literally: lists, ASCII with any bytes,
+// binary, boolean, integer, float; JIS-8 / localized text free of quote, backslash, angle bracket
+// and control characters; no EmptyItem below the top.
 func inDomain(it secs2.Item, top bool) bool {
 	switch {
 	case it.IsEmpty():
@@ -166,10 +173,27 @@ func inDomain(it secs2.Item, top bool) bool {
 		return plainText(s)
 	case it.IsLocalizedStr():
 		s, _ := it.ToLocalizedStr()
-		return plainText(s) && strconv.Quote(s) == `"`+s+`"`
+		return plainText(s)
 	default:
 		return true
 	}
+}
+
+// quoteEscapes: some localized string of the tree is changed by strconv.Quote (beyond the quotes)
+func quoteEscapes(it secs2.Item) bool {
+	if it.IsLocalizedStr() {
+		s, _ := it.ToLocalizedStr()
+		return strconv.Quote(s) != `"`+s+`"`
+	}
+	if it.IsList() {
+		cs, _ := it.ToList()
+		for _, c := range cs {
+			if quoteEscapes(c) {
+				return true
+			}
+		}
+	}
+	return false
 }
 
 func asciiHasGT(it secs2.Item) bool {
@@ -188,21 +212,48 @@ func asciiHasGT(it secs2.Item) bool {
 	return false
 }
 
-// withoutGT rebuilds the tree with every '>' in ASCII items replaced by '}'.
-func withoutGT(it secs2.Item) secs2.Item {
-	if it.IsASCII() {
+// scrub rebuilds the tree with the two known defect classes removed: gt replaces every '>' in
+// ASCII items by '}', loc replaces localized text that strconv.Quote escapes by "x".
+func scrub(it secs2.Item, gt, loc bool) secs2.Item {
+	if gt && it.IsASCII() {
 		s, _ := it.ToASCII()
 		return secs2.NewASCIIItem(strings.ReplaceAll(s, ">", "}"))
+	}
+	if loc && it.IsLocalizedStr() && quoteEscapes(it) {
+		return secs2.NewUTF8StrItem("x")
 	}
 	if it.IsList() {
 		cs, _ := it.ToList()
 		out := make([]secs2.Item, len(cs))
 		for i, c := range cs {
-			out[i] = withoutGT(c)
+			out[i] = scrub(c, gt, loc)
 		}
 		return secs2.NewListItem(out...)
 	}
 	return it
+}
+
+// classify names the failure class of a failed round trip: if removing exactly one known defect
+// class from the message makes the round trip pass, the failure belongs to that class.
+func classify(m *hsms.DataMessage, o opts, why string) string {
+	it, _ := m.Item()
+	try := func(gt, loc bool) bool {
+		m2, err := hsms.NewDataMessage(m.Stream(), m.Function(), m.WaitBit(), 0, [4]byte{}, scrub(it, gt, loc))
+		if err != nil {
+			return false
+		}
+		ok, _ := roundTrips(m2, o)
+		return ok
+	}
+	switch {
+	case asciiHasGT(it) && try(true, false):
+		return "strict round trip fails for an ASCII item containing '>'"
+	case quoteEscapes(it) && try(false, true):
+		return "strict round trip fails for localized text that strconv.Quote escapes"
+	case asciiHasGT(it) && quoteEscapes(it) && try(true, true):
+		return "strict round trip fails for an ASCII item containing '>' and localized text that strconv.Quote escapes"
+	}
+	return "strict round trip fails: " + why
 }
 
 func roundTrips(m *hsms.DataMessage, o opts) (bool, string) {
@@ -236,11 +287,18 @@ func main() {
 	r := c.Rng
 	// vh keeps at most 50 failures: report only the first few of the known '>' class so that a
 	// different failure found later is never crowded out (the rest are counted in the histogram)
-	gtReported := 0
+	knownReported := map[string]int{}
 	failGT := func(what, kase string) {
-		c.Count("oracle/ascii-gt-class")
-		if gtReported < 4 {
-			gtReported++
+		class := "ascii-gt"
+		if strings.Contains(what, "strconv.Quote escapes") {
+			class = "localized-quote"
+			if strings.Contains(what, "containing '>'") {
+				class = "both"
+			}
+		}
+		c.Count("oracle/known-class/" + class)
+		if knownReported[class] < 3 {
+			knownReported[class]++
 			c.Fail(what, kase)
 		}
 	}
@@ -272,15 +330,8 @@ func main() {
 				if ok, why := roundTrips(m, o); !ok {
 					syn, _ := smlcase.Syntax(it)
 					kase := vh.Join("R", o.syntax(), fmt.Sprint(m.Stream()), fmt.Sprint(m.Function()), vh.B01(m.WaitBit()), syn)
-					what := "accepted text does not re-encode/re-parse equal: " + why
-					if asciiHasGT(it) {
-						if m2, e2 := hsms.NewDataMessage(m.Stream(), m.Function(), m.WaitBit(), 0, [4]byte{}, withoutGT(it)); e2 == nil {
-							if ok2, _ := roundTrips(m2, o); ok2 {
-								what = "strict round trip fails for an ASCII item containing '>' (re-encode of accepted text)"
-							}
-						}
-					}
-					if strings.Contains(what, "containing '>'") {
+					what := classify(m, o, why) + " (re-encode of accepted text)"
+					if strings.Contains(what, "containing '>'") || strings.Contains(what, "strconv.Quote escapes") {
 						failGT(what, kase)
 					} else {
 						c.Fail(what, kase)
@@ -379,15 +430,8 @@ func main() {
 		if ok, why := roundTrips(m, o); !ok {
 			syn, _ := smlcase.Syntax(it)
 			kase := vh.Join("R", o.syntax(), fmt.Sprint(m.Stream()), fmt.Sprint(m.Function()), vh.B01(m.WaitBit()), syn)
-			what := "strict round trip fails: " + why
-			if asciiHasGT(it) {
-				if m2, e2 := hsms.NewDataMessage(m.Stream(), m.Function(), m.WaitBit(), 0, [4]byte{}, withoutGT(it)); e2 == nil {
-					if ok2, _ := roundTrips(m2, o); ok2 {
-						what = "strict round trip fails for an ASCII item containing '>'"
-					}
-				}
-			}
-			if strings.Contains(what, "containing '>'") {
+			what := classify(m, o, why)
+			if strings.Contains(what, "containing '>'") || strings.Contains(what, "strconv.Quote escapes") {
 				failGT(what, kase)
 			} else {
 				c.Fail(what, kase)
@@ -409,7 +453,8 @@ func main() {
 		secs2.NewBinaryItem(), secs2.NewBinaryItem([]byte{0, 1, 2, 255}), secs2.NewBooleanItem(), secs2.NewBooleanItem(true, false),
 		secs2.NewIntItem(1, int64(-128), int64(127)), secs2.NewIntItem(8, int64(math.MinInt64), int64(math.MaxInt64)), secs2.NewUintItem(8, uint64(math.MaxUint64)), secs2.NewUintItem(1),
 		secs2.NewFloatItem(4, math.NaN(), math.Inf(1), math.Inf(-1), math.Copysign(0, -1), 0.1, 1e39, 1e-46), secs2.NewFloatItem(8, math.NaN(), math.Inf(-1), math.Copysign(0, -1), 5e-324, math.MaxFloat64),
-		secs2.NewJIS8Item(""), secs2.NewJIS8Item("abc \x80\xff"), secs2.NewUTF8StrItem(""), secs2.NewUTF8StrItem("héllo wörld"), secs2.NewLocalizedStrItem(7, "x"),
+		secs2.NewJIS8Item(""), secs2.NewJIS8Item("abc \x80\xff"), secs2.NewUTF8StrItem(""), secs2.NewUTF8StrItem("héllo wörld"), secs2.NewLocalizedStrItem(7, "x"), secs2.NewUTF8StrItem("\u00a0"),
+		secs2.NewLocalizedStrItem(secs2.LSHShiftJIS, "\x93\xfa\x96\x7b"), secs2.NewUTF8StrItem("a\u00adb"),
 	}
 	for _, it := range corpus {
 		for _, o := range []opts{{true, sml.QuoteDouble, sml.QuoteNone, sml.BinaryHex, "  "}, {true, sml.QuoteSingle, sml.QuoteDouble, sml.BinaryLiteral, "\t"}} {
